@@ -165,6 +165,41 @@ def same(recorded, now, lost=0):
     return fills <= lost
 
 
+def item_text(repo, fname, item):
+    """normalized text of `struct/enum <item>` of a source file, with the attributes and doc comments directly
+    above it (doc comments are comments: removed) and everything up to its closing brace"""
+    import re
+    src = open(os.path.join(repo, fname), encoding="utf-8", errors="replace").read()
+    m = re.search(r"^[ \t]*(pub(\([a-z]+\))? )?(struct|enum) %s\b" % re.escape(item), src, re.M)
+    if not m:
+        return None
+    lines = src[:m.start()].split("\n")
+    k = len(lines) - 1  # lines[k] is the (empty) start of the item's own line
+    j = k
+    depth = 0
+    while j > 0:
+        t = lines[j - 1].strip()
+        depth += t.count(")") + t.count("]") - t.count("(") - t.count("[")
+        if t.startswith("#[") or t.startswith("///") or t.startswith("//") or depth > 0 or (t and depth == 0 and lines[j - 1].startswith(" ") and not t.endswith(";") and not t.endswith("}") and "#[" in "".join(lines[max(0, j - 8):j])):
+            j -= 1
+            if t.startswith("#[") and depth <= 0:
+                depth = 0
+            continue
+        break
+    start = len("\n".join(lines[:j])) + (1 if j else 0)
+    i = src.index("{", m.end())
+    d = 0
+    while True:
+        if src[i] == "{":
+            d += 1
+        elif src[i] == "}":
+            d -= 1
+            if d == 0:
+                break
+        i += 1
+    return strip(src[start:i + 1])
+
+
 def digest(t):
     return hashlib.sha256(t.encode()).hexdigest()[:16]
 
